@@ -702,6 +702,22 @@ func sortedHosts(hosts map[string]*hatypes.Host) []*hatypes.Host {
 	return sorted
 }
 
+// sortedBackends returns the backends of a map in the order of their IDs. Some
+// backend configurations share limited resources, like the ports of the auth
+// proxy, so the backends cannot be visited in the order of the map.
+func sortedBackends(backends map[string]*hatypes.Backend) []*hatypes.Backend {
+	ids := make([]string, 0, len(backends))
+	for id := range backends {
+		ids = append(ids, id)
+	}
+	sort.Strings(ids)
+	sorted := make([]*hatypes.Backend, len(ids))
+	for i, id := range ids {
+		sorted[i] = backends[id]
+	}
+	return sorted
+}
+
 func (c *converter) fullSyncAnnotations() {
 	c.fullSyncTCP()
 	for _, host := range sortedHosts(c.haproxy.Hosts().Items()) {
@@ -709,7 +725,7 @@ func (c *converter) fullSyncAnnotations() {
 			c.updater.UpdateHostConfig(host, ann)
 		}
 	}
-	for _, backend := range c.haproxy.Backends().Items() {
+	for _, backend := range sortedBackends(c.haproxy.Backends().Items()) {
 		if ann, found := c.backendAnnotations[backend]; found {
 			c.updater.UpdateBackendConfig(backend, ann)
 		}
@@ -723,7 +739,7 @@ func (c *converter) partialSyncAnnotations() {
 			c.updater.UpdateHostConfig(host, ann)
 		}
 	}
-	for _, backend := range c.haproxy.Backends().ItemsAdd() {
+	for _, backend := range sortedBackends(c.haproxy.Backends().ItemsAdd()) {
 		if ann, found := c.backendAnnotations[backend]; found {
 			c.updater.UpdateBackendConfig(backend, ann)
 		}
